@@ -420,6 +420,15 @@ class FTPProcessorSession(BaseProcessorSession):
         '''Make a symlink on the system.'''
         path = self._file_writer_session.extra_resource_path('dummy')
 
+        if path and not link_target:
+            # A MLSD listing names the symbolic link but not its target.
+            _logger.warning(
+                _('Unable to create symbolic link {symlink_path}: '
+                  'the listing does not give its target.'),
+                symlink_path=ascii(link_name)
+            )
+            return
+
         if path:
             dir_path = os.path.dirname(path)
             symlink_path = os.path.join(dir_path, link_name)
